@@ -310,6 +310,35 @@ func ruleC15Closure(c *Ctx) {
 				recurses = true
 			}
 		}
+		// (c) the input collection itself is never the result: a "nothing to convert" shortcut would have to look at
+		// every level of nesting to be right
+		identity := false
+		for _, b := range fn.Blocks {
+			if ret, ok := b.Instrs[len(b.Instrs)-1].(*ssa.Return); ok {
+				for _, r := range ret.Results {
+					for _, leaf := range phiLeaves(r, map[ssa.Value]bool{}) {
+						for d := 0; d < 4; d++ {
+							switch x := leaf.(type) {
+							case *ssa.ChangeType:
+								leaf = x.X
+							case *ssa.Convert:
+								leaf = x.X
+							case *ssa.Slice:
+								leaf = x.X
+							}
+						}
+						if _, isParam := leaf.(*ssa.Parameter); isParam {
+							identity = true
+						}
+					}
+				}
+			}
+		}
+		if identity {
+			c.S.Bad("R-C15-closure", fnName(fn)+":no-identity-return", c.Pos(fn.Pos()), fmt.Sprintf("%s can return its input collection unconverted: RESP3 values nested deeper than the level it looked at reach a RESP2 client", fnName(fn)))
+		} else {
+			c.S.OK("R-C15-closure", fnName(fn)+":no-identity-return", c.Pos(fn.Pos()), "the result is always a newly built array")
+		}
 		key = fnName(fn) + ":recurses"
 		if recurses {
 			c.S.OK("R-C15-closure", key, c.Pos(fn.Pos()), "children are converted recursively")
